@@ -68,6 +68,19 @@ impl Sys for Li {
             _ => "?".into(),
         }
     }
+    fn rust_type() -> &'static str {
+        "List<u8, u8>"
+    }
+    fn rust_gen(c: Cmd, a: u8, idx: usize) -> String {
+        match c.k {
+            INSERT => format!("s.insert_index({}, {}u8, {}u8)", c.x, idx, a),
+            APPEND => format!("s.append({}u8, {}u8)", idx, a),
+            _ => format!("s.delete_index({}, {}u8).expect(\"index in range\")", c.x, a),
+        }
+    }
+    fn rust_reads() -> &'static str {
+        "format!(\"{:?}\", s.read::<Vec<&u8>>())"
+    }
     fn spec(recs: &[Rec<Self>], k: Mask, _f: Form) -> Option<String> {
         let mut v = vec![];
         for (i, r) in recs.iter().enumerate() {
